@@ -24,7 +24,8 @@ _NEGOPS = {ast.NotEq: ast.Eq, ast.IsNot: ast.Is, ast.NotIn: ast.In,
 
 
 class Path:
-    __slots__ = ("decisions", "env", "outcome", "value", "trace", "stmt")
+    __slots__ = ("decisions", "env", "outcome", "value", "trace", "stmt",
+                 "skipped")
 
     def __init__(self):
         self.decisions = {}     # atom text -> bool (in order of first use)
@@ -33,6 +34,7 @@ class Path:
         self.value = None       # ast expr (return value / raised exc)
         self.trace = []         # calls evaluated for effect, as text
         self.stmt = None        # the statement the path ended at
+        self.skipped = 0        # loops on the path that were not entered
 
     def get(self, name):
         v = self.env.get(name)
@@ -104,15 +106,16 @@ class _NeedDecision(Exception):
 
 
 class Explorer:
-    def __init__(self, env0=None, opaque_calls=True):
+    def __init__(self, env0=None, opaque_calls=True, max_paths=MAX_PATHS):
         self.env0 = env0 or {}
+        self.max_paths = max_paths
 
     def explore(self, stmts):
         paths = []
         work = [[]]          # decision prefixes: list of (atom, bool)
         while work:
             prefix = work.pop()
-            if len(paths) > MAX_PATHS:
+            if len(paths) > self.max_paths:
                 raise AnalysisError("too many paths in a decision table")
             p = Path()
             p.env = {k: clone(v) for k, v in self.env0.items()}
@@ -181,6 +184,7 @@ class Explorer:
                 self._block(st.orelse, p)
             return
         if isinstance(st, (ast.For, ast.While)):
+            p.skipped += 1
             for n in ast.walk(st):
                 if isinstance(n, ast.Name) and isinstance(n.ctx, ast.Store):
                     p.env[n.id] = ast.Name(id="<%s after loop>" % n.id,
@@ -339,5 +343,5 @@ def _as_load(t):
     return t2
 
 
-def explore(stmts, env0=None):
-    return Explorer(env0).explore(stmts)
+def explore(stmts, env0=None, max_paths=MAX_PATHS):
+    return Explorer(env0, max_paths=max_paths).explore(stmts)
